@@ -6,7 +6,7 @@ from rtc import map_suites
 SPEC = {
     'level': 'other',
     'explanation': "Contract-based deduction cannot decide SQL: the bodies of the SqliteMap accessors are query strings executed by an external engine. Deductive part (small): both map classes select their metric through the same BaseMap setter (one consistent quintuple of callables). Bounded (deciding part): per accessor an abstract-view contract evaluated on both backends loaded with the same integer-labelled graph (size, labels, coordinates, neighbours without the in-memory self entry, edge neighbours, full edge listing, bounding box, box-restricted node listing) and the same edge-based matcher with unbounded initial radius on either.",
-    'assumptions': ["SQLite itself", "edge ids from tuple.__hash__ assumed collision-free on the universe (edge counts are compared)",
+    'assumptions': ["SQLite itself", "edge ids: collisions are searched on one large import per run (birthday bound, see the edge-identity suite) and at labels around zero, not excluded for all label sets",
                     "duplicate entries of a neighbour list are compared as sets"],
     'deductive': [("BaseMap.use_latlon setter / __init__ (shared metric selection)", 'setter', r'.')],
     'bounded': [
@@ -17,6 +17,9 @@ SPEC = {
     'extra_builders': {'setter': lambda prog, tier: [M.vc_use_latlon_setter(prog, v) for v in (True, False, None)] +
                                                     [M.vc_basemap_init(prog, v) for v in (True, False)]},
 }
+
+
+SPEC['post'] = [map_suites.edge_identity_suite]
 
 
 def run(tier, seed, only=None):
